@@ -23,7 +23,8 @@ def _valid(ops):
 
 
 class Minimiser(object):
-    def __init__(self, evaluate, cls, budget=200, simplifiers=None):
+    def __init__(self, evaluate, cls, budget=200, simplifiers=None, valid=None):
+        self.valid = valid or _valid
         self.evaluate = evaluate
         self.cls = cls
         self.budget = budget
@@ -35,7 +36,7 @@ class Minimiser(object):
         cands = []
         idx = []
         for i, ops in enumerate(cand_ops_list):
-            if not ops or not _valid(ops):
+            if not ops or not self.valid(ops):
                 continue
             s = copy.deepcopy(base)
             s["ops"] = ops
